@@ -17,6 +17,9 @@
 (*   "tpReused"       TracesParser kept between requests, reset forgets the last-data slots          *)
 (*   "imgClearAtEnd"  image table cleared when a callstack listing ENDS instead of when it starts    *)
 (*   "subSnapshot"    subclass filter cached, refreshed only when the list OBJECT is replaced        *)
+(*   "clearAtOpen"    thread / process tables cleared when a listing is REQUESTED (call time), filled at  *)
+(*                    its first next(): a request made but not yet read wipes what a listing in progress    *)
+(*                    learned, and is itself filled on top of what others wrote meanwhile                   *)
 (* Properties (Sessions_MC): a listing read without anything else happening in between equals the   *)
 (* atomic reference of Pipeline.tla whatever happened before (CleanIsAtomic); under any interleaving *)
 (* the selection / order / names of every listing still equal the reference (SelectionIsAtomic).    *)
@@ -55,6 +58,8 @@ NewGen(so, kind, d, codes) ==
 OpenObj(so, kind, d, codes) ==
   LET obj == so.o IN
   [so EXCEPT !.o.img = IF kind = "cs" /\ SVariant # "imgClearAtEnd" THEN <<>> ELSE @,
+             !.o.tpid = IF SVariant = "clearAtOpen" THEN EmptyFn ELSE @,
+             !.o.pname = IF SVariant = "clearAtOpen" THEN EmptyFn ELSE @,
              !.effcls = IF IsTr(kind) THEN EffClass(obj) ELSE obj.fclass,
              !.codes = codes,
              !.tpcodes = IF IsTr(kind) THEN codes ELSE @]
@@ -114,7 +119,9 @@ ScanCs(so, g, dump, tabs, s, img, i) ==
 \* one next() of listing g: [so, g] after it and the item (or none)
 Adv(so, g, dump, tables) ==
   LET obj  == so.o
-      tab0 == IF g.started THEN [tpid |-> obj.tpid, pname |-> obj.pname] ELSE MapTables(dump.tmap)    \* first next(): header, thread map
+      tab0 == IF g.started THEN [tpid |-> obj.tpid, pname |-> obj.pname]
+              ELSE IF SVariant = "clearAtOpen" THEN FillMap(dump.tmap, 1, obj.tpid, obj.pname)     \* only filled, on top of what is there
+              ELSE MapTables(dump.tmap)                                                          \* first next(): header, thread map (clear, fill)
   IN IF ~IsTr(g.kind) THEN
        LET r == ScanKev(so, g, dump, tables, tab0, g.pos) IN
        [so |-> [so EXCEPT !.o.tpid = tab0.tpid, !.o.pname = tab0.pname],
